@@ -274,8 +274,11 @@ func vC13GenSession(r *vRng, thorough bool) vSx {
 		}
 	}
 	failAt := -1
-	if r.chance(1, 10) {
-		// transport fault injection: the writer's net.Conn fails its failAt-th write (0-based)
+	if comp == 0 && r.chance(1, 8) {
+		// transport fault injection: the writer's net.Conn fails its failAt-th write (0-based).
+		// Uncompressed connections only: inside a compressed message the error travels through
+		// compress/flate (sticky, stops emitting) and truncWriter's early return, which the model
+		// does not reproduce (kit level_note)
 		failAt = r.pickInt(0, 0, 1, 2, 3, r.intn(12))
 		wellformed = false
 	}
